@@ -390,7 +390,7 @@ def load_model(model_folder: str, model_name: str, compiler_options: Dict[str, s
                 (
                     x
                     for x in model.variable_metadata_function(
-                        ca.veccat(*[np.nan for v in model.parameters])
+                        ca.repmat(np.nan, *parameter_vector.size())
                     )
                 ),
             )
